@@ -59,6 +59,16 @@ def _enclosing(fn: ast.FunctionDef, target: ast.AST):
     return path
 
 
+# external callees that evaluate the function they are given from inside an iterator protocol (`for y in map(f, xs)` /
+# `list(map(f, xs))`): a StopIteration leaving f is taken for the end of the iteration.  One line of reason per entry.
+ITER_CONSUMERS = {
+    "approx_derivative": "(scipy.optimize._numdiff, scipy >= 1.15) evaluates the function as `workers(fun, points)` with workers = map",
+    "map": "yields fun(item) from its __next__",
+    "filter": "calls the predicate from its __next__",
+    "starmap": "yields fun(*item) from its __next__",
+}
+
+
 @rule("EXC", min_instances=9)
 def rule_exc(ctx: Ctx) -> List[Ob]:
     """every call site that may (transitively) run a user-supplied callable lies
@@ -96,9 +106,17 @@ def rule_exc(ctx: Ctx) -> List[Ob]:
                         if d not in TRANSPARENT_CM:
                             bad = (f"lies inside `with {short(ce)}` (line {node.lineno}); this "
                                    f"context manager is not in the table of exception-transparent ones")
+            cons = None
+            if bad is None and why.startswith("external callee receives"):
+                callee = (dotted(c.func) or "").split(".")[-1]
+                if callee in ITER_CONSUMERS:
+                    # the callee is not package code: what it does with the function is a table entry, confirmed by reading it
+                    bad = (f"`{callee}` {ITER_CONSUMERS[callee]}: a StopIteration raised by the user's callable ends that iteration "
+                           f"silently instead of reaching the caller of the minimiser")
+                    cons = f"{callee}(<function that may run user code>)"
             obs.append(ob("EXC", "user-reaching call site is handler-free up to the API boundary",
                           f, c, bad is None,
-                          bad or f"{why}; no try/with/finally of {f.name} encloses it"))
+                          bad or f"{why}; no try/with/finally of {f.name} encloses it", **({"construct": cons} if cons else {})))
     # all try statements
     for q, f in sorted(ctx.repo.funcs.items()):
         for t in walk_no_nested(f.node):
